@@ -554,10 +554,13 @@ def run_table_streams(n, rep):
                 c1 = h3.read(100)
                 c2 = h4.read(CL + 1)
                 c3 = h3.read(50)
-                return a, b, c1, c2, c3
+                # a file that starts behind its first cluster_offset clusters (Roland samples carry `cluster_top`):
+                # the tail of the SAME table walk, whatever the allocation
+                tails = tuple(table.get_file(ch[0], o).read(-1) for o in range(1, len(ch)))
+                return (a, b, c1, c2, c3) + tails
             st, got = guarded(go, 10.0)
             case = {"seam": "roland_files", "n": n, "chain": list(ch)}
-            want = (exp, exp, exp[:100], exp[:CL + 1], exp[100:150])
+            want = (exp, exp, exp[:100], exp[:CL + 1], exp[100:150]) + tuple(exp[o * CL:] for o in range(1, len(ch)))
             if st == "ok" and tuple(got) == want:
                 rep.case(case, klass="files-exact", nontrivial=True)
             else:
@@ -578,7 +581,7 @@ class Check(CheckBase):
             "(c') all tables over 3 (quick) / 4 (thorough) scanned cells x free-cluster count word {1,2,3,4,5,15,16,0xFFF1,0xFFFF} "
             "x the four accepted version-flag pairs (redundant header words must not influence any chain); (d) FileStream.readall over every injective chain of "
             "<=n sectors; (e) the streams the tables hand out (AKAI get_segment, Roland get_file) for every injective chain of <=4 "
-            "(thorough 5) sectors: resolved four times, read to the end twice and in turn through two handles; (f) the chain LENGTH as a dimension: one well-formed chain of 1..8000 / all sectors (AKAI 11385, Roland 65523 clusters) in a table of the real size, laid out ascending / descending / as a stride walk, and the same chain closed into a cycle (judged on termination only); (g) 18 two-partition AKAI images through the real image parser, one after the other in one process: each partition's table resolves its own file's chain and its stream delivers that partition's sectors; Roland images whose files lie on every injective chain of <= 3 clusters that touches the last or last-but-one cluster the image file holds. states = (table,start) combinations; transitions = table element reads performed by the "
+            "(thorough 5) sectors: resolved four times, read to the end twice and in turn through two handles, Roland files also from every cluster offset 1..len-1 (the tail of the same walk); (f) the chain LENGTH as a dimension: one well-formed chain of 1..8000 / all sectors (AKAI 11385, Roland 65523 clusters) in a table of the real size, laid out ascending / descending / as a stride walk, and the same chain closed into a cycle (judged on termination only); (g) 18 two-partition AKAI images through the real image parser, one after the other in one process: each partition's table resolves its own file's chain and its stream delivers that partition's sectors; Roland images whose files lie on every injective chain of <= 3 clusters that touches the last or last-but-one cluster the image file holds. states = (table,start) combinations; transitions = table element reads performed by the "
             "implementation (counted by list proxies, which are also the non-termination detector). "
             "non-trivial = reference chain has >=2 sectors or is malformed")
     assumptions = ["well-formed as worded in the statement: distinct in-range sectors, ends in an end marker (or last "
